@@ -219,6 +219,17 @@ def gen_config(rng):
     return {"tree": tree, "meta": meta}
 
 
+def _denotes(level, tok):
+    """the command a token names among its siblings, as the library's collections decide it: a NAME shadows any
+    alias, among colliding aliases the last registration wins"""
+    named = [c for c in level if not c["anonymous"]]
+    for c in named:
+        if c["name"] == tok:
+            return c
+    hit = [c for c in named if tok in c["aliases"]]
+    return hit[-1] if hit else None
+
+
 def _paths(rng, tree):
     """up to 3 name paths of the tree (any depth, names or aliases, hidden commands included)"""
     out = []
@@ -230,7 +241,13 @@ def _paths(rng, tree):
             if not named:
                 break
             node = rng.choice(named)
-            p.append(rng.choice([node["name"]] + node["aliases"]) if rng.random() < 0.3 else node["name"])
+            tok = rng.choice([node["name"]] + node["aliases"]) if rng.random() < 0.3 else node["name"]
+            if _denotes(level, tok) is not node:
+                # an alias that a sibling's name (or a later sibling's alias) shadows does not name this command
+                tok = node["name"]
+            if _denotes(level, tok) is not node:
+                break
+            p.append(tok)
             level = ac.enabled(node["subs"])
         if p and p not in out:
             out.append(p)
@@ -738,6 +755,10 @@ def oracle(case, obs):
     runs = obs["runs"]
     for k in range(0, len(runs), 3):
         (t0, a), (t1, b), (t2, c) = runs[k], runs[k + 1], runs[k + 2]
+        if not _path_ok(tree["commands"], t0[1:]):
+            # the tokens do not name a command path (an alias shadowed by a sibling's name): the statement speaks about
+            # `help <path>` for command paths only
+            continue
         for (t, r) in ((t0, a), (t1, b), (t2, c)):
             if r.get("status") != 0 or r.get("err"):
                 return "`%s` ends with %s" % (" ".join(t), {k_: str(v_)[:200] for k_, v_ in r.items() if k_ != "out"})
@@ -808,18 +829,19 @@ def _with_tree(case, cmds):
     return c
 
 
+def _path_ok(cmds, p):
+    level = ac.enabled(cmds)
+    for n in p:
+        hit = _denotes(level, n)
+        if hit is None:
+            return False
+        level = ac.enabled(hit["subs"])
+    return True
+
+
 def _valid_paths(case):
     tree = case["config"]["tree"]["commands"]
-
-    def ok(p):
-        level = ac.enabled(tree)
-        for n in p:
-            hit = [c for c in level if not c["anonymous"] and (c["name"] == n or n in c["aliases"])]
-            if not hit:
-                return False
-            level = ac.enabled(hit[-1]["subs"])
-        return True
-    case["paths"] = [p for p in case["paths"] if ok(p)]
+    case["paths"] = [p for p in case["paths"] if _path_ok(tree, p)]
     return case
 
 
